@@ -448,7 +448,11 @@ impl<'a, T: QueryToRelationTranslator + Copy + Clone> VisitedQueryRelations<'a, 
         // TODO consider more tables
         // For now, only consider the first element
         // It should eventually be cross joined as described in: https://www.postgresql.org/docs/current/queries-table-expressions.html
-        self.try_from_table_with_joins(&tables_with_joins[0])
+        self.try_from_table_with_joins(
+            tables_with_joins
+                .first()
+                .ok_or_else(|| Error::other("A SELECT without FROM clause is not supported"))?,
+        )
     }
 
     /// Extracts named expressions from the from relation and the select items
@@ -799,9 +803,13 @@ impl<'a, T: QueryToRelationTranslator + Copy + Clone> VisitedQueryRelations<'a, 
                     // Build a Relation from set operation
                     Ok(Arc::new(relation_builder.try_build()?))
                 }
-                _ => panic!("We only support set operations over SELECTs"),
+                _ => Err(Error::other(
+                    "Set operations are only supported between two SELECTs",
+                )),
             },
-            _ => todo!(),
+            _ => Err(Error::other(format!(
+                "Cannot convert the query body {body} into a relation"
+            ))),
         }
     }
 }
